@@ -1,14 +1,14 @@
 (* C17 — Duden list, text, number and sorting functions meet their specification.
    One refinement theorem per covered function: the Gallina transcription of the DDP body / C primitive (coq/Lib/*Fns.v)
-   equals the Coq list-library expression of its doc comment on the documented domain (_spec).  _bounded = finite
-   domain, the bound is part of the statement (Text_Index_Von_Text, Spalte_Text, Finde_Subtext, Spalten_Spaltmenge_Text).
+   equals the Coq list-library expression of its doc comment on the documented domain (_spec).  Every theorem is a full statement
+   (no bounded ones are left); loops are handled by invariants in coq/Lib/*Proofs.v, fuel exhaustion is excluded there.
    args_unchanged: value parameters cannot change in a functional model (a function cannot modify its argument);
    the harness checks it on the real code by printing every argument after the call.
    The statements below are the full statements of the lemmas of coq/Lib/*Proofs.v (as printed by Check; regenerate
    with checks/c17_mkprops.py); every theorem with hypotheses is followed by a non-vacuity Example that applies it
    to concrete arguments with all hypotheses discharged. *)
 From Coq Require Import List ZArith Bool Lia Permutation Sorted.
-From DDP Require Import Lib.Base Lib.BaseProofs Lib.ListFns Lib.ListProofs Lib.NumFns Lib.NumProofs Lib.SortFns Lib.SortProofs Lib.TextFns Lib.TextProofs.
+From DDP Require Import Lib.Base Lib.BaseProofs Lib.ListFns Lib.ListProofs Lib.NumFns Lib.NumProofs Lib.SortFns Lib.SortProofs Lib.TextFns Lib.TextProofs Lib.TextSearchProofs Lib.ExtraFns Lib.ExtraProofs.
 Import ListNotations.
 Open Scope Z_scope.
 
@@ -131,7 +131,7 @@ Proof. exact (@summe_exact). Qed.
 Print Assumptions C17_summe_exact.
 Example C17_summe_exact_nonvacuous := C17_summe_exact [1;2] ltac:(unfold in_i64, two63; cbn; lia).
 
-Theorem C17_produkt_spec : forall l : list Z, l <> [] -> Produkt_Liste l = wrap64 (zprod l).
+Theorem C17_produkt_spec : forall l : list Z, l <> [] -> Produkt_Liste l = wrap64 (ListProofs.zprod l).
 Proof. exact (@produkt_spec). Qed.
 Print Assumptions C17_produkt_spec.
 Example C17_produkt_spec_nonvacuous := C17_produkt_spec [2;3] ltac:(nv).
@@ -229,6 +229,10 @@ Proof. exact (@ist_teilbar_spec). Qed.
 Print Assumptions C17_ist_teilbar_spec.
 Example C17_ist_teilbar_spec_nonvacuous := C17_ist_teilbar_spec 4 2 ltac:(nv).
 
+Theorem C17_ist_teilbar_null : forall a : Z, Ist_Teilbar a 0 = Err.
+Proof. exact (@ist_teilbar_null). Qed.
+Print Assumptions C17_ist_teilbar_null.
+
 Theorem C17_gerade_spec : forall x : Z, Gerade_Zahl x = true <-> (2 | x).
 Proof. exact (@gerade_spec). Qed.
 Print Assumptions C17_gerade_spec.
@@ -246,6 +250,11 @@ Example C17_teiler_spec_nonvacuous := C17_teiler_spec 6 ltac:(nv).
 Theorem C17_teiler_sorted_desc : forall z : Z, Teilerzerlegung z = filter (fun d : Z => Z.rem z d =? 0) (map (fun k : nat => z - Z.of_nat k) (seq 0 (Z.to_nat z))).
 Proof. exact (@teiler_sorted_desc). Qed.
 Print Assumptions C17_teiler_sorted_desc.
+
+Theorem C17_primfaktorzerlegung_spec : forall z : Z, 1 <= z -> exists l : list Z, Primfaktorzerlegung z = Ok l /\ zprod l = z /\ Forall ist_prim l.
+Proof. exact (@primfaktorzerlegung_spec). Qed.
+Print Assumptions C17_primfaktorzerlegung_spec.
+Example C17_primfaktorzerlegung_spec_nonvacuous := C17_primfaktorzerlegung_spec 12 ltac:(nv).
 
 Theorem C17_trunc_spec : forall n d : Z, Trunc n d = n ÷ d * d.
 Proof. exact (@trunc_spec). Qed.
@@ -437,10 +446,10 @@ Theorem C17_text_index_von_buchstabe_spec : forall (t : text) (z : Z), Text_Inde
 Proof. exact (@text_index_von_buchstabe_spec). Qed.
 Print Assumptions C17_text_index_von_buchstabe_spec.
 
-Theorem C17_text_index_von_text_bounded : forall t s : text, over abc t -> over abc s -> (length t <= 7)%nat -> (length s <= 3)%nat -> s <> [] -> t <> [] -> Text_Index_Von_Text t s = Ok (ref_index t s).
-Proof. exact (@text_index_von_text_bounded). Qed.
-Print Assumptions C17_text_index_von_text_bounded.
-Example C17_text_index_von_text_bounded_nonvacuous := C17_text_index_von_text_bounded [99;99;99;97] [97;98] ltac:(ov) ltac:(ov) ltac:(nv) ltac:(nv) ltac:(nv) ltac:(nv).
+Theorem C17_text_index_von_text_spec : forall (t : text) (s : list Z), s <> [] -> Text_Index_Von_Text t s = Ok (ref_index t s).
+Proof. exact (@text_index_von_text_spec). Qed.
+Print Assumptions C17_text_index_von_text_spec.
+Example C17_text_index_von_text_spec_nonvacuous := C17_text_index_von_text_spec [99;99;99;97] [97;98] ltac:(nv).
 
 Theorem C17_text_index_von_text_leer : forall s : text, Text_Index_Von_Text [] s = Ok (-1).
 Proof. exact (@text_index_von_text_leer). Qed.
@@ -475,19 +484,19 @@ Theorem C17_spalte_leer : forall z : Z, Spalte [] z = Ok [].
 Proof. exact (@spalte_leer). Qed.
 Print Assumptions C17_spalte_leer.
 
-Theorem C17_spalte_text_bounded : forall t s : text, over abc t -> over abc s -> (length t <= 7)%nat -> (length s <= 3)%nat -> t <> [] -> 1 < len s -> Spalte_Text t s = Ok (split_text_ref (length t + 1) s t []).
-Proof. exact (@spalte_text_bounded). Qed.
-Print Assumptions C17_spalte_text_bounded.
-Example C17_spalte_text_bounded_nonvacuous := C17_spalte_text_bounded [97;98;99;98;99] [98;99] ltac:(ov) ltac:(ov) ltac:(nv) ltac:(nv) ltac:(nv) ltac:(nv).
+Theorem C17_spalte_text_spec : forall (t : text) (s : list Z), 1 < len s -> Spalte_Text t s = Ok (split_iter (length t + 1) s t).
+Proof. exact (@spalte_text_spec). Qed.
+Print Assumptions C17_spalte_text_spec.
+Example C17_spalte_text_spec_nonvacuous := C17_spalte_text_spec [97;98;99;98;99] [98;99] ltac:(nv).
 
 Theorem C17_spalte_text_einzeln : forall (t : text) (c : Z), Spalte_Text t [c] = Spalte t c.
 Proof. exact (@spalte_text_einzeln). Qed.
 Print Assumptions C17_spalte_text_einzeln.
 
-Theorem C17_finde_subtext_bounded : forall t s : text, over abc t -> over abc s -> (length t <= 7)%nat -> (length s <= 3)%nat -> s <> [] -> t <> [] -> Finde_Subtext t s = Ok (finde_ref (length t + 1) s t 1).
-Proof. exact (@finde_subtext_bounded). Qed.
-Print Assumptions C17_finde_subtext_bounded.
-Example C17_finde_subtext_bounded_nonvacuous := C17_finde_subtext_bounded [97;98;97;97] [97] ltac:(ov) ltac:(ov) ltac:(nv) ltac:(nv) ltac:(nv) ltac:(nv).
+Theorem C17_finde_subtext_spec : forall (t : text) (s : list Z), s <> [] -> Finde_Subtext t s = Ok (finde_iter (length t + 1) s t 1).
+Proof. exact (@finde_subtext_spec). Qed.
+Print Assumptions C17_finde_subtext_spec.
+Example C17_finde_subtext_spec_nonvacuous := C17_finde_subtext_spec [97;98;97;97] [97] ltac:(nv).
 
 Theorem C17_verbinden_text_spec : forall (l : list text) (z : Z), Verbinden_Text l z = Ok (join (fun t : text => t) z l).
 Proof. exact (@verbinden_text_spec). Qed.
@@ -496,6 +505,33 @@ Print Assumptions C17_verbinden_text_spec.
 Theorem C17_verbinden_buchstabe_spec : forall (l : list Z) (z : Z), Verbinden_Buchstabe l z = Ok (join (fun b : Z => [b]) z l).
 Proof. exact (@verbinden_buchstabe_spec). Qed.
 Print Assumptions C17_verbinden_buchstabe_spec.
+
+Theorem C17_verbinden_zahl_spec : forall (l : list Z) (z : Z), Verbinden_Zahl l z = Ok (join zahl_als_text z l).
+Proof. exact (@verbinden_zahl_spec). Qed.
+Print Assumptions C17_verbinden_zahl_spec.
+
+Theorem C17_zahl_als_text_wert : forall z : Z, in_i64 z -> exists ds : list Z, zahl_als_text z = (if z <? 0 then [45] else []) ++ ds /\ ziffern_wert ds 0 = Z.abs z.
+Proof. exact (@zahl_als_text_wert). Qed.
+Print Assumptions C17_zahl_als_text_wert.
+Example C17_zahl_als_text_wert_nonvacuous := C17_zahl_als_text_wert (-42) ltac:(unfold in_i64, two63; lia).
+
+Theorem C17_levenshtein_spec : forall t1 t2 : text, Levenshtein_Distanz t1 t2 = Ok (lev_ref t1 t2).
+Proof. exact (@levenshtein_spec). Qed.
+Print Assumptions C17_levenshtein_spec.
+
+Theorem C17_levenshtein_lev : forall t1 t2 : list Z, len t1 + len t2 < two63 -> Levenshtein_Distanz t1 t2 = Ok (lev (rev t1) (rev t2)).
+Proof. exact (@levenshtein_lev). Qed.
+Print Assumptions C17_levenshtein_lev.
+Example C17_levenshtein_lev_nonvacuous := C17_levenshtein_lev [107;105] [115;105] ltac:(unfold two63; cbn; lia).
+
+Theorem C17_text_zu_byteliste_spec : forall t : text, Text_Zu_ByteListe t = concat (map utf8_enc t).
+Proof. exact (@text_zu_byteliste_spec). Qed.
+Print Assumptions C17_text_zu_byteliste_spec.
+
+Theorem C17_byteliste_roundtrip : forall t : list Z, Forall skalar t -> ByteListe_Zu_Text (Text_Zu_ByteListe t) = t.
+Proof. exact (@byteliste_roundtrip). Qed.
+Print Assumptions C17_byteliste_roundtrip.
+Example C17_byteliste_roundtrip_nonvacuous := C17_byteliste_roundtrip [97;228;8364;128512] ltac:(repeat constructor; unfold skalar; lia).
 
 Theorem C17_hamming_spec : forall a b : list Z, length a = length b -> Hamming_Distanz a b = Ok (mismatches a b).
 Proof. exact (@hamming_spec). Qed.
@@ -511,8 +547,17 @@ Theorem C17_vergleiche_spec : forall t1 t2 : text, exists r : Z, Vergleiche_Text
 Proof. exact (@vergleiche_spec). Qed.
 Print Assumptions C17_vergleiche_spec.
 
-Theorem C17_spaltmenge_bounded : forall t m : text, over abc t -> over abc m -> (length t <= 6)%nat -> (length m <= 2)%nat -> t <> [] -> m <> [] -> Spalten_Spaltmenge_Text_Ref t m = Ok (fields_ref m t []).
-Proof. exact (@spaltmenge_bounded). Qed.
-Print Assumptions C17_spaltmenge_bounded.
-Example C17_spaltmenge_bounded_nonvacuous := C17_spaltmenge_bounded [97;98] [98] ltac:(ov) ltac:(ov) ltac:(nv) ltac:(nv) ltac:(nv) ltac:(nv).
+Theorem C17_spaltmenge_spec : forall m : list Z, inm m 0 = false -> forall t : text, Spalten_Spaltmenge_Text_Ref t m = Ok (fields_ref m t []).
+Proof. exact (@spaltmenge_spec). Qed.
+Print Assumptions C17_spaltmenge_spec.
+Example C17_spaltmenge_spec_nonvacuous := C17_spaltmenge_spec [98] ltac:(reflexivity) [97;98].
+
+Theorem C17_spaltmenge_text_spec : forall (t : text) (mt : list Z), inm mt 0 = false -> Spalten_SpaltmengeText_Text t mt = Ok (fields_ref mt t []).
+Proof. exact (@spaltmenge_text_spec). Qed.
+Print Assumptions C17_spaltmenge_text_spec.
+Example C17_spaltmenge_text_spec_nonvacuous := C17_spaltmenge_text_spec [97;98] [98] ltac:(reflexivity).
+
+Theorem C17_text_worte_spec : forall t : text, Text_Worte t = Ok (fields_ref leerzeichen t []).
+Proof. exact (@text_worte_spec). Qed.
+Print Assumptions C17_text_worte_spec.
 
